@@ -198,6 +198,7 @@ InitState(env, funcs) ==
    stdin |-> env.stdin, stdinpos |-> 1, files |-> env.files, argi |-> 1, hadFiles |-> FALSE,
    cur |-> [open |-> FALSE, name |-> <<>>, pos |-> 1], readers |-> EmptyFn, inrange |-> {},
    taken |-> 0, nrSet |-> FALSE,        \* ghosts: records taken from the main input; NR assigned by the program
+   mainStdin |-> FALSE, dashUsed |-> FALSE,   \* ghosts: standard input read by the main loop / through getline < "-"
    cnt |-> EmptyFn]
 
 Halt(st, sg) == [st EXCEPT !.sig = sg]
@@ -583,8 +584,13 @@ VarNameOf(bytes) ==
 CurContent(st) == IF st.cur.name = <<MINUS>> THEN st.stdin ELSE st.files[st.cur.name]
 CurPos(st) == IF st.cur.name = <<MINUS>> THEN st.stdinpos ELSE st.cur.pos
 
+\* Standard input read both by the main loop and through getline < "-" is outside the model (the two readers
+\* buffer independently, so how the records are divided between them depends on read sizes).
 OpenSource(st, name) ==
+  IF name = <<MINUS>> /\ st.dashUsed THEN Halt(st, "bad")
+  ELSE
   [st EXCEPT !.cur = [open |-> TRUE, name |-> name, pos |-> 1], !.hadFiles = TRUE,
+             !.mainStdin = @ \/ name = <<MINUS>>,
              !.sp = Update(Update(@, "FILENAME", StrNum(name)), "FNR", Num(0))]
 
 \* NextMain(st, n): [found, line, st]; n bounds the operand walk
@@ -631,7 +637,11 @@ Getline(e, st) ==
             IN IF ~Live(r.st) THEN <<Null, r.st>>
                ELSE IF r.found THEN <<Num(1), Deliver(r.line, r.st)>> ELSE <<Num(0), r.st>>
      ELSE LET fname == ToStr(Norm(nm[1]))
-          IN IF fname \notin DOMAIN s1.files THEN <<Num(0 - 1), s1>>
+          IN IF fname = <<MINUS>>        \* getline < "-": the next record of standard input
+             THEN IF s1.mainStdin THEN <<Null, Halt(s1, "bad")>>
+                  ELSE IF s1.stdinpos > Len(s1.stdin) THEN <<Num(0), [s1 EXCEPT !.dashUsed = TRUE]>>
+                  ELSE <<Num(1), Deliver(s1.stdin[s1.stdinpos], [s1 EXCEPT !.stdinpos = @ + 1, !.dashUsed = TRUE])>>
+             ELSE IF fname \notin DOMAIN s1.files THEN <<Num(0 - 1), s1>>
              ELSE LET pos == Lookup(s1.readers, fname, 1)
                   IN IF pos > Len(s1.files[fname]) THEN <<Num(0), [s1 EXCEPT !.readers = Update(@, fname, pos)]>>
                      ELSE <<Num(1), Deliver(s1.files[fname][pos], [s1 EXCEPT !.readers = Update(@, fname, pos + 1)])>>
